@@ -59,7 +59,10 @@ func delayedSmudge(gf *lfs.GitFilter, s *git.FilterProcessScanner, to io.Writer,
 	}
 
 	if !skip && filter.Allows(filename) {
-		if _, statErr := os.Stat(path); statErr != nil && ptr.Size != 0 {
+		// A file of the wrong size is not the object: it has to be
+		// downloaded like a missing one, as the smudge filter does
+		// when it cannot delay.
+		if stat, statErr := os.Stat(path); (statErr != nil || stat.Size() != ptr.Size) && ptr.Size != 0 {
 			q.Add(filename, path, ptr.Oid, ptr.Size, false, nil)
 			return 0, true, ptr, nil
 		}
